@@ -37,8 +37,9 @@ class SchedScenario(Scenario):
     horizon_is_terminal = True
 
     def __init__(self, name, n_inst, jobs, crash=None, impl='default',
-                 horizon=None, batch_size=2):
+                 horizon=None, batch_size=2, rp=False):
         self.name = name
+        self.rp = rp
         self.n_inst = n_inst
         self.jobs = jobs          # dicts: name, delay, key, by, commit, at
         self.crash = crash        # None or instance index that may crash
@@ -52,14 +53,15 @@ class SchedScenario(Scenario):
         return ('checks.c13', 'SchedScenario', dict(
             name=self.name, n_inst=self.n_inst, jobs=self.jobs,
             crash=self.crash, impl=self.impl, horizon=self.horizon_clock,
-            batch_size=self.batch_size))
+            batch_size=self.batch_size, rp=self.rp))
 
     def describe(self):
         return {'name': self.name, 'instances': self.n_inst,
                 'jobs': self.jobs, 'crash_of': self.crash, 'impl': self.impl,
                 'horizon_s': self.horizon_clock,
                 'pickup_job_after': PICKUP,
-                'captured_job_timeout': CAP_TIMEOUT}
+                'captured_job_timeout': CAP_TIMEOUT,
+                'transactions_may_overlap_before_their_first_write': self.rp}
 
     def setup(self):
         ov = [('pickup_job_after', PICKUP, 'scheduler'),
@@ -70,6 +72,7 @@ class SchedScenario(Scenario):
               ('in_memory_workers', 4, 'scheduler')]
         env.reset(overrides=ov, scheduler=self.impl, n_sched=self.n_inst)
         w = env.W
+        w.rp = self.rp
         w.extra['inv'] = []
         w.extra['crashed'] = []
         w.extra['jobs'] = {}
@@ -257,9 +260,22 @@ def scenarios(tier):
     quick = tier == 'quick'
     S = []
 
-    def add(name, n, jobs, crash=None, impl='default', bound=None, secs=40):
-        S.append((SchedScenario(name, n, jobs, crash=crash, impl=impl),
+    def add(name, n, jobs, crash=None, impl='default', bound=None, secs=40,
+            rp=False):
+        S.append((SchedScenario(name, n, jobs, crash=crash, impl=impl,
+                                rp=rp),
                   bound, secs if quick else secs * 10, 1))
+
+    # polls / captures of several instances overlapping inside their
+    # transactions (a poll that has only selected so far is overtaken)
+    for impl in ('default', 'legacy'):
+        add(impl[0] + '2i-1j-overlap', 2, [J('a', 1, 'k')], impl=impl,
+            rp=True, bound=2 if quick else 4)
+        add(impl[0] + '2i-2j-overlap', 2,
+            [J('a', 0, 'k'), J('b', 1, 'k', by=1)], impl=impl, rp=True,
+            bound=1 if quick else 3)
+    add('d3i-1j-overlap', 3, [J('a', 0, 'k')], rp=True,
+        bound=1 if quick else 3)
 
     for impl in ('default', 'legacy'):
         p = impl[0]
